@@ -302,11 +302,12 @@ impl TraversalMut for Bfs {
         let node = tree.tree_node(data.index).unwrap();
 
         self.last_push = 0;
-        for (n_remaining, child) in node.children.iter().flatten().enumerate() {
+        let n_children = node.children.iter().flatten().count();
+        for (position, child) in node.children.iter().flatten().enumerate() {
             self.queue.push_back(DfsNodeData {
                 depth: data.depth + 1,
                 index: *child,
-                n_remaining,
+                n_remaining: n_children - 1 - position,
             });
             self.last_push += 1;
         }
